@@ -2,6 +2,6 @@
 # One-off offline build of everything the checks need.
 set -e
 export CARGO_NET_OFFLINE=true
-cd /verif/harness
+cd "$(dirname "$0")/harness"
 cargo build --quiet --profile checked
 echo "setup ok"
